@@ -240,6 +240,35 @@ def read_unify_numeric(path: Path):
     return op if g.left.id == b else SWAP[op]
 
 
+def read_literal_typing(mod: ast.Module):
+    """python_value_to_guppy_type: an int literal is a nat only under a nat hint and when >= 0, else an
+    int; a float literal is a float (shape only; the bounds are C17's subject)"""
+    f = find_func(mod, "python_value_to_guppy_type")
+    src = ast.unparse(f)
+    for need in ("case int(n) if type_hint == nat_type() and n >= 0:\n            _int_bounds_check(n, node, signed=False)\n            return nat_type()",
+                 "case int(n):\n            _int_bounds_check(n, node, signed=True)\n            return int_type()",
+                 "case bool():\n            return bool_type()",
+                 "case float():\n            return float_type()"):
+        if need not in src:
+            fail(f, f"literal typing lost `{need}`")
+    order = [src.index("case bool():"), src.index("case int(n) if"), src.index("case int(n):"), src.index("case float():")]
+    if order != sorted(order):
+        fail(f, "order of the literal cases")
+    # ExprChecker.visit_Constant: literal type, then check_type_against; visit_ComptimeExpr: unify only
+    chk = find_class(mod, "ExprChecker")
+    vc = [ast.unparse(s) for s in strip_doc(find_func(chk, "visit_Constant").body)]
+    if not (vc[0] == "act = python_value_to_guppy_type(node.value, node, self.ctx.globals, ty)"
+            and "node, subst, inst = check_type_against(act, ty, node, self.ctx, self._kind)" in vc):
+        fail(find_func(chk, "visit_Constant"), "ExprChecker.visit_Constant")
+    gv = [ast.unparse(s) for s in strip_doc(find_func(chk, "generic_visit").body)]
+    if gv[:2] != ["node, synth = self._synthesize(node, allow_free_vars=False)",
+                  "node, subst, inst = check_type_against(synth, ty, node, self.ctx, self._kind)"]:
+        fail(find_func(chk, "generic_visit"), "ExprChecker.generic_visit")
+    ck = ast.unparse(find_func(chk, "check"))
+    if "if (actual := get_type_opt(expr)):\n        expr, subst, inst = check_type_against(actual, ty, expr, self.ctx, kind)" not in ck:
+        fail(find_func(chk, "check"), "ExprChecker.check on an already typed expression")
+
+
 def translate(ctx) -> str:
     t4 = c04()
     util = t4.read_util(ctx.int_src("std/_internal/util.py"))
@@ -248,6 +277,7 @@ def translate(ctx) -> str:
     mod = parse_file(ctx.int_src("checker/expr_checker.py"))
     cmp_, recv, name_of, tgt = read_try_coerce(mod)
     fb = read_cta_tail(mod)
+    read_literal_typing(mod)
     ucmp = read_unify_numeric(ctx.int_src("tys/ty.py"))
     out = [
         "(* GENERATED on every run from tys/ty.py, checker/expr_checker.py, std/num.py, std/_internal/util.py",
